@@ -553,7 +553,7 @@ class _OverlapAudioReader(_FixedSizeAudioReader):
             yield AudioIOError
         block = self._audio_source.read(self._block_size)
         if block is None:
-            yield None
+            return
 
         _hop_size_bytes = (
             self._hop_size * self._audio_source.sw * self._audio_source.ch
